@@ -14,6 +14,24 @@
 //!   * freeing a live block succeeds                                   (`free_rejected`)
 //! Panics / crashes are picked up by the driver.
 //!
+//! Beyond plain allocate/free the histories also drive (audit round, see REPORT of the audit):
+//!   * `clear()` / `clear_caches()` in the middle of a history and continued use afterwards
+//!     (MemoryPool, SecureMemoryPool, ThreadLocalMemoryPool), two ThreadLocalMemoryPools and two
+//!     TieredMemoryAllocators on one thread (they share `thread_local!` state), a second handle
+//!     to an AdaptiveFiveLevelPool (`get_handle`);
+//!   * the bulk / hinted allocation entry points (LockFreeMemoryPool::allocate_bulk_simd,
+//!     SecureMemoryPool::{allocate_with_hint, allocate_bulk_with_prefetch}), the RAII wrapper
+//!     LockFreeAllocation, the library's LockFreePoolConfig presets, MemoryMappedAllocator::default;
+//!   * per-run knob `full`: blocks are filled and overlap-checked for every byte the handle
+//!     exposes (FixedCapacityAllocation::size(), MmapAllocation::actual_size()), not only the request;
+//!   * per-run knob `drop_pool_first`: the harness' handle to a SecureMemoryPool is dropped while
+//!     blocks are live;
+//!   * pointers never issued that lie directly before / after the LockFreeMemoryPool's region;
+//!   * typed bump allocations with element types whose size differs from their alignment and
+//!     over-aligned ones, through BumpAllocator, BumpArena and BumpScope;
+//!   * PooledVec<T> (several element types) next to PooledBuffer over the global pools;
+//!   * SecureMemoryPool's error counters around every free (its guard's Drop swallows the verdict).
+//!
 //! Mechanics worth knowing:
 //!   * this binary installs its own `#[global_allocator]` (malloc + 16-byte header).  While a
 //!     pool call is in progress (`IN_POOL`) every heap allocation is (a) recorded, so that
@@ -236,6 +254,8 @@ struct Blk<H> {
     id: u32,
     addr: usize,
     len: usize,
+    /// the size that was requested (= `len` unless the run tracks the handle's whole usable length)
+    req: usize,
     /// never dropped implicitly: after a panic inside the pool nothing is handed back to it
     h: std::mem::ManuallyDrop<H>,
     slot: usize,
@@ -354,7 +374,7 @@ impl<H> Shadow<H> {
                 true
             });
         }
-        self.blocks.push(Blk { id, addr, len, h: std::mem::ManuallyDrop::new(h), slot, mem, birth: self.clock });
+        self.blocks.push(Blk { id, addr, len, req: len, h: std::mem::ManuallyDrop::new(h), slot, mem, birth: self.clock });
         self.allocs_ok += 1;
         if self.frees > 0 {
             self.alloc_after_free = true;
@@ -441,6 +461,15 @@ fn pending(s: &str) {
         g.clear();
         g.push_str(s);
     }
+    // in a forked canary the parent also learns which call was in progress when the copy died
+    let fd = EV_FD.load(Relaxed);
+    if fd >= 0 && !DRY.load(Relaxed) {
+        let mut line = Vec::with_capacity(s.len() + 2);
+        line.push(1u8);
+        line.extend_from_slice(s.as_bytes());
+        line.push(b'\n');
+        unsafe { libc::write(fd, line.as_ptr() as *const libc::c_void, line.len()) };
+    }
 }
 
 /// did the pool release a heap region under a live block during the last call?
@@ -480,6 +509,12 @@ struct Params {
     w_free: u64,
     min_ops: u64,
     max_ops: u64,
+    /// track (fill, verify, overlap-check) every byte the handle exposes (`Got::usable`), not only the
+    /// requested length: the handle's safe slice view may be longer than the request
+    full: bool,
+    /// at wind-down give up the harness' own handle to the pool *before* the live blocks are freed
+    /// (only targets whose `release_handle` supports it)
+    drop_pool_first: bool,
 }
 
 trait Target {
@@ -506,6 +541,12 @@ trait Target {
         let _ = align;
         format!("allocate({})", size)
     }
+    /// drop the harness' own handle to the pool (live blocks keep whatever they hold); false = not supported
+    fn release_handle(&mut self) -> bool {
+        false
+    }
+    /// housekeeping of the harness after a clean run, before the pool is dropped (no oracle involved)
+    fn before_drop(&mut self) {}
 }
 
 fn history<T: Target>(cx: &mut Run, t: T, p: &Params) {
@@ -586,8 +627,15 @@ fn history<T: Target>(cx: &mut Run, t: T, p: &Params) {
                         std::mem::forget(g.h);
                         break;
                     }
-                    if sh.admit(cx, g.h, g.addr, size, g.align, g.mem, &name).is_none() {
+                    let len = if p.full { g.usable } else { size };
+                    if len > size {
+                        cx.probe("handle_exposes_more_than_requested");
+                    }
+                    if sh.admit(cx, g.h, g.addr, len, g.align, g.mem, &name).is_none() {
                         break;
+                    }
+                    if let Some(b) = sh.blocks.last_mut() {
+                        b.req = size;
                     }
                     if sh.blocks.len() >= 2 {
                         cx.probe("two_or_more_blocks_live");
@@ -609,8 +657,8 @@ fn history<T: Target>(cx: &mut Run, t: T, p: &Params) {
                 Some(b) => b,
                 None => break,
             };
-            let name = format!("free(block #{}, {} bytes)", b.id, b.len);
-            let blen = b.len;
+            let name = format!("free(block #{}, {} bytes)", b.id, b.req);
+            let blen = b.req;
             pending(&name);
             let r = pc(|| t.free(std::mem::ManuallyDrop::into_inner(b.h), blen));
             pending("");
@@ -648,12 +696,23 @@ fn history<T: Target>(cx: &mut Run, t: T, p: &Params) {
         return;
     }
     // wind down: free what is still live (contents verified first), then drop the pool
+    if p.drop_pool_first && !sh.blocks.is_empty() {
+        let did = pc(|| t.release_handle());
+        if did {
+            cx.probe("pool_handle_dropped_before_live_blocks");
+            ev(cx, format!("drop(the pool handle) with {} block(s) live", sh.blocks.len()));
+            if hook_violation(cx, &sh) || !sh.verify(cx, "dropping the pool handle") {
+                sh.abandon();
+                return;
+            }
+        }
+    }
     while !sh.blocks.is_empty() && t.can_free() {
         let b = match sh.take(cx, sh.blocks.len() - 1) {
             Some(b) => b,
             None => break,
         };
-        let blen = b.len;
+        let blen = b.req;
         let r = pc(|| t.free(std::mem::ManuallyDrop::into_inner(b.h), blen));
         if hook_violation(cx, &sh) {
             break;
@@ -673,6 +732,13 @@ fn history<T: Target>(cx: &mut Run, t: T, p: &Params) {
     }
     sh.abandon(); // only non-freeable handles (bump) are left; they own nothing
     ga::reset(true);
+    pc(|| t.before_drop());
+    if ga::FREED_LIVE.load(Relaxed) != 0 {
+        // (blocks the housekeeping itself held while it dropped the pool handle)
+        ev(cx, "drop(the pool handle) while the harness held blocks it had just obtained from the pool");
+        cx.violate("freed_while_live", &format!("{}.backing_memory", tn), format!("the pool released a {}-byte heap region while a live block lies inside it (at +{})", ga::FREED_LEN.load(Relaxed), ga::FREED_OFF.load(Relaxed)));
+        return;
+    }
     pc(|| drop(std::mem::ManuallyDrop::into_inner(t)));
 }
 
@@ -753,12 +819,24 @@ fn run_in(cx: &mut Run, thread: bool, keep_table: bool, canary: bool, f: impl Fn
                     let _ = body(&mut *cx, keep_table, f);
                     DRY.store(false, Relaxed);
                     let mut n = 0;
-                    for line in String::from_utf8_lossy(&out).lines() {
+                    let mut died_in = String::new();
+                    let text = String::from_utf8_lossy(&out).into_owned();
+                    let lines: Vec<&str> = text.lines().collect();
+                    for (i, line) in lines.iter().enumerate() {
+                        // '\x01<op>' marks the start of a pool call ('\x01' alone: it returned)
+                        if let Some(op) = line.strip_prefix('\u{1}') {
+                            if i + 1 == lines.len() && !op.is_empty() {
+                                cx.ev(format!("{} -> the process died inside this call", op));
+                                died_in = format!("; the call in progress was {}", op);
+                                n += 1;
+                            }
+                            continue;
+                        }
                         cx.ev(line);
                         n += 1;
                     }
                     cx.steps = n;
-                    cx.violate(&format!("crash:{}", name), "process", format!("a forked copy of the process executing this history was killed by {} after the events above (the pool call in progress is the last one not listed)", name));
+                    cx.violate(&format!("crash:{}", name), "process", format!("a forked copy of the process executing this history was killed by {} after the events above{}", name, if died_in.is_empty() { " (the pool call in progress is the last one not listed)".to_string() } else { died_in }));
                     return;
                 }
             } else {
@@ -782,15 +860,20 @@ fn run_in(cx: &mut Run, thread: bool, keep_table: bool, canary: bool, f: impl Fn
 // targets
 
 // ---- LockFreeMemoryPool
-use zipora::memory::lockfree_pool::{BackoffStrategy, LockFreeMemoryPool, LockFreePoolConfig};
+use zipora::memory::lockfree_pool::{BackoffStrategy, LockFreeAllocation, LockFreeMemoryPool, LockFreePoolConfig};
 
 struct TLockFree {
-    pool: LockFreeMemoryPool,
+    pool: Arc<LockFreeMemoryPool>,
     memory_size: usize,
     zero: bool,
     foreign: Box<[u64; 16]>,
     small_sizes: Vec<usize>,
     foreign_large: bool,
+    /// free through the RAII wrapper `LockFreeAllocation` (its Drop swallows the result)
+    raii: bool,
+    /// [start, start+len) of the pool's backing region, learnt from the first block it issued
+    region: Option<(usize, usize)>,
+    bulk_sizes: Vec<usize>,
 }
 
 impl Target for TLockFree {
@@ -800,10 +883,16 @@ impl Target for TLockFree {
     }
     fn alloc(&mut self, size: usize, _align: usize) -> Result<Got<NonNull<u8>>, String> {
         let p = self.pool.allocate(size).map_err(|e| e.to_string())?;
+        if self.region.is_none() {
+            self.region = ga::region_of(p.as_ptr() as usize, 1);
+        }
         Ok(Got { h: p, addr: p.as_ptr() as usize, usable: size, mem: Mem::Ptr { contain: true }, align: 8 })
     }
     fn free(&mut self, h: NonNull<u8>, size: usize) -> Result<(), String> {
-        if self.zero {
+        if self.raii {
+            drop(LockFreeAllocation::new(h, size, self.pool.clone()));
+            Ok(())
+        } else if self.zero {
             self.pool.deallocate_with_zero(h, size).map_err(|e| e.to_string())
         } else {
             self.pool.deallocate(h, size).map_err(|e| e.to_string())
@@ -817,19 +906,70 @@ impl Target for TLockFree {
         }
     }
     fn extra(&mut self, cx: &mut Run, sh: &mut Shadow<NonNull<u8>>, o: [u64; 4]) -> bool {
-        // a pointer the pool never issued (it points into a buffer owned by the harness)
+        let variant = o[3] % 8;
+        if variant >= 6 {
+            // allocate_bulk_simd: every block it returns is an allocation like any other
+            let room = 8usize.saturating_sub(sh.blocks.len());
+            let n = (1 + (o[1] % 3) as usize).min(room);
+            if n == 0 {
+                return false;
+            }
+            let sizes: Vec<usize> = (0..n).map(|i| self.bulk_sizes[((o[2] >> (8 * i)) as usize) % self.bulk_sizes.len()]).collect();
+            let name = format!("allocate_bulk_simd({:?})", sizes);
+            pending(&name);
+            let r = pc(|| self.pool.allocate_bulk_simd(&sizes));
+            pending("");
+            match r {
+                Ok(v) => {
+                    cx.probe("bulk_allocation");
+                    if v.len() != sizes.len() {
+                        ev(cx, format!("{} -> {} blocks", name, v.len()));
+                        cx.violate("too_small", "LockFreeMemoryPool.allocate_bulk_simd", format!("{} returned {} blocks", name, v.len()));
+                        return true;
+                    }
+                    for (i, p) in v.into_iter().enumerate() {
+                        if self.region.is_none() {
+                            self.region = ga::region_of(p.as_ptr() as usize, 1);
+                        }
+                        if sizes[i] > self.memory_size {
+                            ev(cx, format!("{} -> ok", name));
+                            cx.violate("accepted_beyond_capacity", "LockFreeMemoryPool.allocate", format!("{} succeeded although the pool's whole backing region is {} bytes", name, self.memory_size));
+                            return true;
+                        }
+                        if sh.admit(cx, p, p.as_ptr() as usize, sizes[i], 8, Mem::Ptr { contain: true }, &format!("{}[{}]", name, i)).is_none() {
+                            return true;
+                        }
+                    }
+                }
+                Err(e) => ev(cx, format!("{} -> refused ({})", name, e.to_string().chars().take(60).collect::<String>())),
+            }
+            return true;
+        }
+        // a pointer the pool never issued
         let size = if self.foreign_large && o[1] % 2 == 0 { 9000 } else { self.small_sizes[(o[2] as usize) % self.small_sizes.len()].max(1) };
         let large = size > 8192;
-        let p = NonNull::new(self.foreign.as_mut_ptr() as *mut u8).unwrap();
+        let (p, what) = match (variant, self.region) {
+            // just outside the pool's own backing region: the boundary cases of a range check.
+            // Both addresses lie inside the harness allocator's slack around the region, never
+            // inside memory handed to anybody.
+            (4, Some((start, len))) => (NonNull::new((start + len) as *mut u8).unwrap(), "<the first byte after the pool's backing region>"),
+            (5, Some((start, _))) => (NonNull::new((start - 16) as *mut u8).unwrap(), "<16 bytes before the pool's backing region>"),
+            // (it points into a buffer owned by the harness)
+            _ => (NonNull::new(self.foreign.as_mut_ptr() as *mut u8).unwrap(), "<pointer never issued by this pool>"),
+        };
+        if variant == 4 || variant == 5 {
+            if self.region.is_some() {
+                cx.probe("foreign_pointer_adjacent_to_region");
+            }
+        }
         let r = pc(|| self.pool.deallocate(p, size));
         cx.fault("foreign_pointer_free");
-        ev(cx, format!("deallocate(<pointer never issued by this pool>, {}) -> {}", size, if r.is_ok() { "ok" } else { "error" }));
+        ev(cx, format!("deallocate({}, {}) -> {}", what, size, if r.is_ok() { "ok" } else { "error" }));
         cx.cell(format!("LockFreeMemoryPool/foreign_free/{}", if r.is_ok() { "ok" } else { "err" }));
         if r.is_ok() {
             let site = if large { "LockFreeMemoryPool.deallocate(large)" } else { "LockFreeMemoryPool.deallocate" };
-            cx.violate("foreign_free_accepted", site, format!("deallocate of a pointer outside the pool's memory with size {} returned Ok", size));
+            cx.violate("foreign_free_accepted", site, format!("deallocate of a pointer outside the pool's memory ({}) with size {} returned Ok", what, size));
         }
-        let _ = sh;
         true
     }
 }
@@ -860,10 +1000,10 @@ impl Scenario for LockFreeSc {
         let huge = self.huge;
         run_in(cx, false, false, true, move |cx| {
             let cfg = cx.src.chan("cfg");
-            let memory_size = *cfg.pick(&[64usize, 136, 256, 520, 1024, 4096, 20000]);
+            let mut memory_size = *cfg.pick(&[64usize, 136, 256, 520, 1024, 4096, 20000]);
             let zero = cfg.chance(1, 3);
             let cache_al = cfg.chance(1, 3);
-            let config = LockFreePoolConfig {
+            let mut config = LockFreePoolConfig {
                 memory_size,
                 enable_stats: !cfg.chance(1, 4),
                 max_cas_retries: 100,
@@ -876,6 +1016,21 @@ impl Scenario for LockFreeSc {
                 enable_simd_optimization: cfg.chance(1, 2),
                 zero_on_free: zero,
             };
+            // the library's own presets (16-256 MiB regions, never touched beyond the blocks issued)
+            let preset = if huge { 0 } else { cfg.biased_zero(4, 1, 12) };
+            if preset != 0 {
+                config = match preset {
+                    1 => LockFreePoolConfig::default(),
+                    2 => LockFreePoolConfig::compact(),
+                    _ => LockFreePoolConfig::high_performance(),
+                };
+                config.zero_on_free = zero;
+                // cache-layout detection executes CPUID (slow under virtualisation) and has no effect on the memory handed out
+                config.enable_cache_alignment = false;
+                config.cache_config = None;
+                memory_size = config.memory_size;
+                cx.probe("library_preset_config");
+            }
             let (sizes, small_sizes) = if huge {
                 // sizes <= 128 round to an exact bin, so the bin-rounding defect cannot fire here
                 let small = choose(&cfg, &[1, 8, 9, 16, 64, 100, 128], 3);
@@ -890,17 +1045,19 @@ impl Scenario for LockFreeSc {
                 }
                 (s.clone(), s)
             };
-            ev(cx, format!("LockFreeMemoryPool::new(memory_size={}, zero_on_free={}, cache_alignment={}) sizes={:?}", memory_size, zero, cache_al, sizes));
+            let raii = cfg.chance(1, 4);
+            ev(cx, format!("LockFreeMemoryPool::new(memory_size={}, zero_on_free={}, cache_alignment={}, preset={}) sizes={:?}{}", memory_size, zero, cache_al, preset, sizes, if raii { " free through LockFreeAllocation" } else { "" }));
             let pool = match pc(|| LockFreeMemoryPool::new(config)) {
-                Ok(p) => p,
+                Ok(p) => Arc::new(p),
                 Err(e) => {
                     ev(cx, format!("new -> error {}", e));
                     return;
                 }
             };
             let foreign_large = cfg.chance(1, 10);
-            let t = TLockFree { pool, memory_size, zero, foreign: Box::new([0u64; 16]), small_sizes: small_sizes.into_iter().filter(|&s| s <= 8192).chain([8]).collect(), foreign_large };
-            let p = Params { sizes, aligns: vec![1], max_live: 8, w_alloc: 55, w_free: 35, min_ops: 4, max_ops: 40 };
+            let bulk_sizes: Vec<usize> = sizes.iter().copied().filter(|&s| s <= 1 << 20).chain([8]).collect();
+            let t = TLockFree { pool, memory_size, zero, foreign: Box::new([0u64; 16]), small_sizes: small_sizes.into_iter().filter(|&s| s <= 8192).chain([8]).collect(), foreign_large, raii, region: None, bulk_sizes };
+            let p = Params { sizes, aligns: vec![1], max_live: 8, w_alloc: 55, w_free: 35, min_ops: 4, max_ops: 40, full: false, drop_pool_first: false };
             history(cx, t, &p);
         });
     }
@@ -910,12 +1067,39 @@ impl Scenario for LockFreeSc {
 use zipora::memory::secure_pool::{SecureMemoryPool, SecurePoolConfig, SecurePooledPtr};
 
 struct TSecure {
-    pool: Arc<SecureMemoryPool>,
+    /// None after `release_handle` (the live blocks then hold the only, weak, references)
+    pool: Option<Arc<SecureMemoryPool>>,
     chunk: usize,
     align: usize,
     /// chunks the pool should be holding for reuse
     free_model: u64,
     pend: Option<(String, String, String)>,
+    /// `clear()` in the middle of the history: 0 = never, 1 = only while no block is live, 2 = at any time
+    allow_clear: u8,
+    /// clear() was called while blocks were live: what their frees do afterwards is booked on its own site
+    cleared_with_live: bool,
+    max_live: usize,
+    /// see `before_drop`
+    drain: bool,
+}
+
+impl TSecure {
+    fn dealloc_site(&self) -> String {
+        if self.cleared_with_live { "SecureMemoryPool.deallocate(after clear() with live blocks)".into() } else { "SecureMemoryPool.deallocate".into() }
+    }
+    /// bookkeeping common to every way of obtaining one chunk; `before`/`after` = pool_misses around the call
+    fn took_one(&mut self, before: u64, after: u64) {
+        if self.free_model > 0 {
+            self.free_model -= 1;
+            if after != before {
+                self.pend = Some((
+                    "freed_block_not_reused".into(),
+                    self.dealloc_site(),
+                    format!("{} freed chunk(s) should be available for reuse, yet allocate() had to obtain a new chunk (pool_misses {} -> {})", self.free_model + 1, before, after),
+                ));
+            }
+        }
+    }
 }
 
 impl Target for TSecure {
@@ -924,25 +1108,32 @@ impl Target for TSecure {
         "SecureMemoryPool"
     }
     fn alloc(&mut self, _size: usize, _align: usize) -> Result<Got<SecurePooledPtr>, String> {
-        let before = self.pool.stats().pool_misses;
-        let p = self.pool.allocate().map_err(|e| e.to_string())?;
-        let after = self.pool.stats().pool_misses;
-        if self.free_model > 0 {
-            self.free_model -= 1;
-            if after != before {
-                self.pend = Some((
-                    "freed_block_not_reused".into(),
-                    "SecureMemoryPool.deallocate".into(),
-                    format!("{} freed chunk(s) should be available for reuse, yet allocate() had to obtain a new chunk (pool_misses {} -> {})", self.free_model + 1, before, after),
-                ));
-            }
-        }
+        let pool = self.pool.clone().ok_or("no pool handle")?;
+        let before = pool.stats().pool_misses;
+        let p = pool.allocate().map_err(|e| e.to_string())?;
+        let after = pool.stats().pool_misses;
+        self.took_one(before, after);
         let addr = p.as_ptr() as usize;
         let usable = p.size();
         Ok(Got { h: p, addr, usable, mem: Mem::Ptr { contain: true }, align: self.align })
     }
     fn free(&mut self, h: SecurePooledPtr, _size: usize) -> Result<(), String> {
+        // SecurePooledPtr::drop swallows the pool's verdict; the pool's counters are the only witness
+        let before = self.pool.as_ref().map(|p| {
+            let s = p.stats();
+            (s.double_free_detected, s.corruption_detected)
+        });
         drop(h);
+        if let (Some(b), Some(p)) = (before, self.pool.as_ref()) {
+            let s = p.stats();
+            if (s.double_free_detected, s.corruption_detected) != b && self.pend.is_none() {
+                self.pend = Some((
+                    "free_rejected".into(),
+                    self.dealloc_site(),
+                    format!("the free of a live block issued by this pool was rejected and the chunk dropped: double_free_detected {} -> {}, corruption_detected {} -> {}", b.0, s.double_free_detected, b.1, s.corruption_detected),
+                ));
+            }
+        }
         self.free_model += 1;
         Ok(())
     }
@@ -952,12 +1143,149 @@ impl Target for TSecure {
     fn alloc_name(&self, _s: usize, _a: usize) -> String {
         format!("allocate() [chunk_size {}]", self.chunk)
     }
+    fn release_handle(&mut self) -> bool {
+        // the freed chunks go with the pool; live ones are released by their guards without it
+        self.pool.take().is_some()
+    }
+    fn before_drop(&mut self) {
+        // Dropping a SecureMemoryPool leaks the chunks in its thread-local cache (SecureChunk has no
+        // Drop).  With the 64 KiB / 1 MiB chunks of the presets that is gigabytes per worker over a
+        // thorough run, so the harness takes every cached chunk out again, drops the pool and lets
+        // the guards release the chunks themselves.  One small-chunk pool in four is still
+        // dropped with its caches filled.
+        if self.chunk < 16 * 1024 && !self.drain {
+            return;
+        }
+        if let Some(pool) = self.pool.take() {
+            let mut held = vec![];
+            for _ in 0..80 {
+                let before = pool.stats().pool_misses;
+                match pool.allocate() {
+                    Ok(p) => {
+                        held.push(p);
+                        if pool.stats().pool_misses != before {
+                            break;
+                        }
+                    }
+                    Err(_) => break,
+                }
+            }
+            // the held chunks are live blocks like any other while the pool goes away
+            let slots: Vec<usize> = held.iter().map(|p| ga::live_add(p.as_ptr() as usize, p.as_ptr() as usize + p.size().max(1))).collect();
+            drop(pool);
+            if ga::FREED_LIVE.load(Relaxed) != 0 {
+                // reported by `history`; nothing is handed back to a pool in an unknown state
+                std::mem::forget(held);
+                return;
+            }
+            slots.into_iter().for_each(ga::live_del);
+            drop(held);
+        }
+    }
+    fn extra(&mut self, cx: &mut Run, sh: &mut Shadow<SecurePooledPtr>, o: [u64; 4]) -> bool {
+        let Some(pool) = self.pool.clone() else { return false };
+        let room = self.max_live.saturating_sub(sh.blocks.len());
+        let site = "SecureMemoryPool.allocate";
+        match o[1] % 4 {
+            0 if self.allow_clear == 2 || (self.allow_clear == 1 && sh.blocks.is_empty()) => {
+                // clear(): releases the chunks the pool holds for reuse; live blocks are not its business
+                pending("clear()");
+                let r = pc(|| pool.clear());
+                pending("");
+                ev(cx, format!("clear() -> {} with {} block(s) live", if r.is_ok() { "ok" } else { "error" }, sh.blocks.len()));
+                cx.probe("clear_midway");
+                if !sh.blocks.is_empty() {
+                    cx.probe("clear_with_live_blocks");
+                    self.cleared_with_live = true;
+                }
+                // nothing is demanded about chunks freed before the clear
+                self.free_model = 0;
+                true
+            }
+            1 | 2 if room > 0 => {
+                // allocate_bulk_with_prefetch; `bad` puts one size the pool must refuse at position j
+                let n = (1 + (o[2] % 3) as usize).min(room);
+                let bad = (o[3] % 5 == 0).then(|| ((o[3] / 5) as usize) % n);
+                let sizes: Vec<usize> = (0..n).map(|i| if Some(i) == bad { self.chunk + 8 } else { self.chunk }).collect();
+                let name = format!("allocate_bulk_with_prefetch({:?})", sizes);
+                pending(&name);
+                let before = pool.stats().pool_misses;
+                let r = pc(|| pool.allocate_bulk_with_prefetch(&sizes));
+                let after = pool.stats().pool_misses;
+                pending("");
+                match r {
+                    Ok(v) => {
+                        cx.probe("bulk_allocation");
+                        if bad.is_some() || v.len() != n {
+                            ev(cx, format!("{} -> ok, {} blocks", name, v.len()));
+                            cx.violate("too_small", site, format!("{} returned {} blocks of {} bytes", name, v.len(), self.chunk));
+                            std::mem::forget(v);
+                            return true;
+                        }
+                        // of the n chunks, min(n, free_model) had to come from the freed ones
+                        let reuse = (n as u64).min(self.free_model);
+                        self.free_model -= reuse;
+                        if after - before > n as u64 - reuse {
+                            self.pend = Some(("freed_block_not_reused".into(), self.dealloc_site(), format!("{} freed chunk(s) should have been reused by {}, yet pool_misses went {} -> {}", reuse, name, before, after)));
+                        }
+                        let mut rest = v.into_iter().enumerate();
+                        while let Some((i, h)) = rest.next() {
+                            let (addr, usable) = (h.as_ptr() as usize, h.size());
+                            if usable < self.chunk {
+                                cx.violate("too_small", site, format!("{}[{}] is a block of {} bytes", name, i, usable));
+                                std::mem::forget(h);
+                            } else if sh.admit(cx, h, addr, self.chunk, self.align, Mem::Ptr { contain: true }, &format!("{}[{}]", name, i)).is_some() {
+                                continue;
+                            }
+                            rest.for_each(|(_, h)| std::mem::forget(h));
+                            return true;
+                        }
+                    }
+                    Err(e) => {
+                        ev(cx, format!("{} -> refused ({})", name, e.to_string().chars().take(60).collect::<String>()));
+                        // the chunks taken before the refusal were released again inside the call
+                        if let Some(j) = bad {
+                            self.free_model = self.free_model.max(j as u64);
+                            cx.fault("request_beyond_capacity_refused");
+                        }
+                    }
+                }
+                true
+            }
+            _ if room > 0 => {
+                let hot = o[2] % 2 == 0;
+                let name = format!("allocate_with_hint({}) [chunk_size {}]", hot, self.chunk);
+                pending(&name);
+                let before = pool.stats().pool_misses;
+                let r = pc(|| pool.allocate_with_hint(hot));
+                let after = pool.stats().pool_misses;
+                pending("");
+                match r {
+                    Ok(h) => {
+                        self.took_one(before, after);
+                        let (addr, usable) = (h.as_ptr() as usize, h.size());
+                        if usable < self.chunk {
+                            cx.violate("too_small", site, format!("{} returned a block of {} bytes", name, usable));
+                            std::mem::forget(h);
+                        } else {
+                            sh.admit(cx, h, addr, self.chunk, self.align, Mem::Ptr { contain: true }, &name);
+                        }
+                    }
+                    Err(e) => ev(cx, format!("{} -> refused ({})", name, e.to_string().chars().take(60).collect::<String>())),
+                }
+                true
+            }
+            _ => false,
+        }
+    }
 }
 
 struct SecureSc {
     aligned: bool,
     /// chunk sizes that are not a multiple of 8 (tiny budget: see the scenario's note)
     odd: bool,
+    /// `clear()` is called in the middle of histories (own scenario: what it finds must not hide the rest)
+    clear: bool,
 }
 
 impl Scenario for SecureSc {
@@ -965,20 +1293,27 @@ impl Scenario for SecureSc {
         if self.odd {
             return "SecureMemoryPool/chunk_size_not_multiple_of_8".into();
         }
+        if self.clear {
+            return "SecureMemoryPool/clear_midway".into();
+        }
         format!("SecureMemoryPool/{}", if self.aligned { "alignment16+" } else { "alignment8" })
     }
     fn budget(&self, tier: Tier) -> u64 {
         match (tier, self.odd) {
             (_, true) => 16,
+            (Tier::Quick, _) if self.clear => 4_000,
+            (Tier::Thorough, _) if self.clear => 200_000,
             (Tier::Quick, _) => 10_000,
             (Tier::Thorough, _) => 600_000,
         }
     }
     fn run(&self, cx: &mut Run) {
-        let aligned = self.aligned;
         let odd = self.odd;
+        let clear = self.clear;
+        let aligned_sc = self.aligned;
         run_in(cx, false, false, odd, move |cx| {
             let cfg = cx.src.chan("cfg");
+            let aligned = if clear { cfg.chance(1, 3) } else { aligned_sc };
             let preset = if odd { 0 } else { cfg.biased_zero(3, 1, 8) };
             let mut config = if preset == 1 {
                 if aligned { SecurePoolConfig::medium_secure() } else { SecurePoolConfig::small_secure() }
@@ -1013,8 +1348,12 @@ impl Scenario for SecureSc {
                     return;
                 }
             };
-            let t = TSecure { pool, chunk, align, free_model: 0, pend: None };
-            let p = Params { sizes: vec![chunk], aligns: vec![1], max_live: 6, w_alloc: 55, w_free: 45, min_ops: 4, max_ops: 30 };
+            let allow_clear = if !clear { 0 } else if cfg.chance(1, 3) { 2 } else { 1 };
+            if allow_clear == 2 {
+                ev(cx, "clear() also while blocks are live");
+            }
+            let t = TSecure { pool: Some(pool), chunk, align, free_model: 0, pend: None, allow_clear, cleared_with_live: false, max_live: 6, drain: !cfg.chance(1, 4) };
+            let p = Params { sizes: vec![chunk], aligns: vec![1], max_live: 6, w_alloc: 48, w_free: 42, min_ops: 4, max_ops: 30, full: false, drop_pool_first: cfg.chance(1, 4) };
             history(cx, t, &p);
         });
     }
@@ -1128,7 +1467,117 @@ impl Scenario for TlsSc {
             // whatever an earlier (abandoned) run on this thread left in the thread-local cache goes first
             pc(|| pool.clear_caches());
             let t = TTls { pool };
-            let p = Params { sizes, aligns: vec![1], max_live: 8, w_alloc: 60, w_free: 40, min_ops: 4, max_ops: 40 };
+            let p = Params { sizes, aligns: vec![1], max_live: 8, w_alloc: 60, w_free: 40, min_ops: 4, max_ops: 40, full: false, drop_pool_first: false };
+            history(cx, t, &p);
+        });
+    }
+}
+
+/// Two pools with different configurations used from one thread (they share the one
+/// `thread_local!` cache), and `clear_caches()` in the middle of the history.
+/// The `align` argument of `alloc` selects the pool.
+struct TTls2 {
+    pools: Vec<Arc<ThreadLocalMemoryPool>>,
+    /// call clear_caches() also while blocks are live
+    with_live: bool,
+}
+
+impl Drop for TTls2 {
+    fn drop(&mut self) {
+        self.pools[0].clear_caches();
+    }
+}
+
+impl Target for TTls2 {
+    type H = ThreadLocalAllocation;
+    fn t(&self) -> &'static str {
+        "ThreadLocalMemoryPool"
+    }
+    fn alloc(&mut self, size: usize, which: usize) -> Result<Got<ThreadLocalAllocation>, String> {
+        let a = self.pools[which % self.pools.len()].allocate(size).map_err(|e| e.to_string())?;
+        let addr = a.as_ptr() as usize;
+        let usable = a.size();
+        Ok(Got { h: a, addr, usable, mem: Mem::Ptr { contain: true }, align: 1 })
+    }
+    fn free(&mut self, h: ThreadLocalAllocation, _s: usize) -> Result<(), String> {
+        drop(h);
+        Ok(())
+    }
+    fn alloc_name(&self, size: usize, which: usize) -> String {
+        format!("pool{}.allocate({})", which % self.pools.len(), size)
+    }
+    fn extra(&mut self, cx: &mut Run, sh: &mut Shadow<ThreadLocalAllocation>, o: [u64; 4]) -> bool {
+        if !sh.blocks.is_empty() && !self.with_live {
+            return false;
+        }
+        let which = (o[1] as usize) % self.pools.len();
+        pending("clear_caches()");
+        pc(|| self.pools[which].clear_caches());
+        pending("");
+        ev(cx, format!("pool{}.clear_caches() with {} block(s) live", which, sh.blocks.len()));
+        cx.probe("clear_caches_midway");
+        if !sh.blocks.is_empty() {
+            cx.probe("clear_caches_with_live_blocks");
+        }
+        true
+    }
+}
+
+struct Tls2Sc {
+    with_live: bool,
+}
+
+impl Scenario for Tls2Sc {
+    fn name(&self) -> String {
+        format!("ThreadLocalMemoryPool/{}", if self.with_live { "clear_caches_with_live_blocks" } else { "two_pools" })
+    }
+    fn budget(&self, tier: Tier) -> u64 {
+        match (tier, self.with_live) {
+            (Tier::Quick, false) => 8_000,
+            (Tier::Thorough, false) => 500_000,
+            (Tier::Quick, true) => 1_500,
+            (Tier::Thorough, true) => 60_000,
+        }
+    }
+    fn run(&self, cx: &mut Run) {
+        let with_live = self.with_live;
+        run_in(cx, false, false, false, move |cx| {
+            let cfg = cx.src.chan("cfg");
+            let n = if with_live && cfg.chance(1, 2) { 1 } else { 2 };
+            let mut configs = vec![];
+            for _ in 0..n {
+                configs.push(ThreadLocalPoolConfig {
+                    arena_size: *cfg.pick(&[64usize, 256, 1024, 4096]),
+                    max_threads: 4,
+                    enable_stats: !cfg.chance(1, 4),
+                    sync_threshold: *cfg.pick(&[64isize, 1024, 256 * 1024]),
+                    max_cached_chunks: *cfg.pick(&[64usize, 2, 1, 0]),
+                    use_secure_memory: false,
+                });
+            }
+            let quarter = configs.iter().map(|c| c.arena_size / 4).max().unwrap();
+            let all: Vec<usize> = [1usize, 8, 16, 17, 32, 33, 48, 64, 65, 96, 128, 200, 256, 1000, 1024].iter().copied().filter(|&s| s <= quarter).collect();
+            let sizes = choose(&cfg, &all, 3);
+            ev(cx, format!(
+                "{} ThreadLocalMemoryPool(s) on one thread: {} sizes={:?}",
+                n,
+                configs.iter().enumerate().map(|(i, c)| format!("pool{}(arena_size={}, max_cached_chunks={})", i, c.arena_size, c.max_cached_chunks)).collect::<Vec<_>>().join(" "),
+                sizes
+            ));
+            let mut pools = vec![];
+            for c in configs {
+                match pc(|| ThreadLocalMemoryPool::new(c)) {
+                    Ok(p) => pools.push(p),
+                    Err(e) => {
+                        ev(cx, format!("new -> error {}", e));
+                        return;
+                    }
+                }
+            }
+            // whatever an earlier (abandoned) run on this thread left in the thread-local cache goes first
+            pc(|| pools[0].clear_caches());
+            let t = TTls2 { pools, with_live };
+            let p = Params { sizes, aligns: (0..n).collect(), max_live: 8, w_alloc: 54, w_free: 38, min_ops: 4, max_ops: 40, full: false, drop_pool_first: false };
             history(cx, t, &p);
         });
     }
@@ -1226,7 +1675,12 @@ impl Scenario for FixedSc {
                 }
             };
             let t = TFixed { pool, max_block: mb, total: tb, align: al };
-            let p = Params { sizes, aligns: vec![1], max_live: 10, w_alloc: 60, w_free: 40, min_ops: 4, max_ops: 40 };
+            // FixedCapacityAllocation::as_mut_slice() exposes the whole size class, not the request
+            let full = cfg.chance(1, 3);
+            if full {
+                ev(cx, "blocks are used for their whole reported size()");
+            }
+            let p = Params { sizes, aligns: vec![1], max_live: 10, w_alloc: 60, w_free: 40, min_ops: 4, max_ops: 40, full, drop_pool_first: false };
             history(cx, t, &p);
         });
     }
@@ -1255,6 +1709,15 @@ impl Target for TBasic {
     }
     fn alloc_name(&self, _s: usize, _a: usize) -> String {
         format!("allocate() [chunk_size {}]", self.chunk)
+    }
+    fn extra(&mut self, cx: &mut Run, sh: &mut Shadow<NonNull<u8>>, _o: [u64; 4]) -> bool {
+        // clear(): releases the chunks kept for reuse; the pool stays usable and live blocks untouched
+        pending("clear()");
+        let r = pc(|| self.pool.clear());
+        pending("");
+        ev(cx, format!("clear() -> {} with {} block(s) live", if r.is_ok() { "ok" } else { "error" }, sh.blocks.len()));
+        cx.probe("clear_midway");
+        true
     }
 }
 
@@ -1289,7 +1752,7 @@ impl Scenario for BasicSc {
                 }
             };
             let t = TBasic { pool, chunk, align };
-            let p = Params { sizes: vec![chunk], aligns: vec![1], max_live: 6, w_alloc: 55, w_free: 45, min_ops: 4, max_ops: 30 };
+            let p = Params { sizes: vec![chunk], aligns: vec![1], max_live: 6, w_alloc: 52, w_free: 42, min_ops: 4, max_ops: 30, full: false, drop_pool_first: false };
             history(cx, t, &p);
         });
     }
@@ -1337,8 +1800,171 @@ impl Scenario for PooledBufSc {
             let all = [1usize, 100, 1024, 1025, 65536, 65537, 1 << 20, (1 << 20) + 1, 2 << 20];
             let sizes = choose(&cfg, &all, 4);
             ev(cx, format!("PooledBuffer over the global pools, sizes={:?}", sizes));
-            let p = Params { sizes, aligns: vec![1], max_live: 4, w_alloc: 55, w_free: 45, min_ops: 3, max_ops: 16 };
+            let p = Params { sizes, aligns: vec![1], max_live: 4, w_alloc: 55, w_free: 45, min_ops: 3, max_ops: 16, full: false, drop_pool_first: false };
             history(cx, TPooledBuf, &p);
+        });
+    }
+}
+
+/// PooledVec<T> next to PooledBuffer over the same global pools: a vector is a block of
+/// capacity() * size_of::<T>() bytes for as long as it lives.
+enum PV {
+    Buf(PooledBuffer),
+    U8(zipora::memory::pool::PooledVec<u8>),
+    U64(zipora::memory::pool::PooledVec<u64>),
+    A24(zipora::memory::pool::PooledVec<[u8; 24]>),
+    Big(zipora::memory::pool::PooledVec<[u8; 2000]>),
+    Huge(zipora::memory::pool::PooledVec<[u8; 70_000]>),
+    U128(zipora::memory::pool::PooledVec<u128>),
+}
+
+const PV_KINDS: [(&str, usize, usize); 6] = [("u8", 1, 1), ("u64", 8, 8), ("[u8; 24]", 24, 1), ("[u8; 2000]", 2000, 1), ("[u8; 70000]", 70_000, 1), ("u128", 16, 16)];
+
+struct TPooledMix {
+    kinds: Vec<usize>,
+}
+
+/// fill the vector to its capacity with elements whose bytes continue the block's pattern, check that one
+/// more is refused and that the vector shows what was pushed; returns a complaint
+fn pv_fill<T: Copy + PartialEq>(v: &mut zipora::memory::pool::PooledVec<T>, id: u32, make: impl Fn(&[u8]) -> T) -> Option<(&'static str, String)> {
+    let es = std::mem::size_of::<T>();
+    let cap = v.capacity();
+    let mut bytes = vec![0u8; es];
+    let elem = |i: usize, bytes: &mut Vec<u8>| {
+        for (j, b) in bytes.iter_mut().enumerate() {
+            *b = pat(id, i * es + j);
+        }
+        make(bytes)
+    };
+    for i in 0..cap {
+        let e = elem(i, &mut bytes);
+        if let Err(e) = v.push(e) {
+            return Some(("free_rejected", format!("push #{} of {} (capacity) failed: {}", i, cap, e)));
+        }
+    }
+    let e = elem(cap, &mut bytes);
+    if v.push(e).is_ok() {
+        return Some(("accepted_beyond_capacity", format!("push #{} succeeded on a vector of capacity {}", cap, cap)));
+    }
+    if v.len() != cap || v.as_slice().len() != cap {
+        return Some(("content_corrupted", format!("len() = {}, as_slice().len() = {} after {} pushes", v.len(), v.as_slice().len(), cap)));
+    }
+    for i in [0, cap / 2, cap.saturating_sub(1)] {
+        if i < cap && v.as_slice()[i] != elem(i, &mut bytes) {
+            return Some(("content_corrupted", format!("element {} of {} differs from what was pushed", i, cap)));
+        }
+    }
+    None
+}
+
+impl Target for TPooledMix {
+    type H = PV;
+    fn t(&self) -> &'static str {
+        "PooledVec"
+    }
+    fn alloc(&mut self, size: usize, _a: usize) -> Result<Got<PV>, String> {
+        let b = PooledBuffer::new(size).map_err(|e| e.to_string())?;
+        let addr = b.as_slice().as_ptr() as usize;
+        let usable = b.as_slice().len();
+        Ok(Got { h: PV::Buf(b), addr, usable, mem: Mem::Ptr { contain: true }, align: 1 })
+    }
+    fn free(&mut self, h: PV, _s: usize) -> Result<(), String> {
+        drop(h);
+        Ok(())
+    }
+    fn alloc_name(&self, size: usize, _a: usize) -> String {
+        format!("PooledBuffer::new({})", size)
+    }
+    fn extra(&mut self, cx: &mut Run, sh: &mut Shadow<PV>, o: [u64; 4]) -> bool {
+        use zipora::memory::pool::PooledVec;
+        if sh.blocks.len() >= 4 {
+            return false;
+        }
+        let k = self.kinds[(o[1] as usize) % self.kinds.len()];
+        let (tn, es, al) = PV_KINDS[k];
+        let name = format!("PooledVec::<{}>::new()", tn);
+        pending(&name);
+        // (address, capacity) are read through as_slice() of the still empty vector
+        fn mk<T>(wrap: impl FnOnce(PooledVec<T>) -> PV) -> Result<(PV, usize, usize), String> {
+            let v = PooledVec::<T>::new().map_err(|e| e.to_string())?;
+            let (addr, cap) = (v.as_slice().as_ptr() as usize, v.capacity());
+            Ok((wrap(v), addr, cap))
+        }
+        let r = pc(|| match k {
+            0 => mk::<u8>(PV::U8),
+            1 => mk::<u64>(PV::U64),
+            2 => mk::<[u8; 24]>(PV::A24),
+            3 => mk::<[u8; 2000]>(PV::Big),
+            4 => mk::<[u8; 70_000]>(PV::Huge),
+            _ => mk::<u128>(PV::U128),
+        });
+        pending("");
+        let (h, addr, cap) = match r {
+            Ok(x) => x,
+            Err(e) => {
+                ev(cx, format!("{} -> refused ({})", name, e.chars().take(60).collect::<String>()));
+                return true;
+            }
+        };
+        cx.probe("pooled_vec");
+        let what = format!("{} [capacity {}]", name, cap);
+        let Some(id) = sh.admit(cx, h, addr, cap * es, al, Mem::Ptr { contain: true }, &what) else { return true };
+        let fill = format!("fill PooledVec #{} to its capacity", id);
+        pending(&fill);
+        let b = sh.blocks.last_mut().unwrap();
+        let bad = pc(|| match &mut *b.h {
+            PV::U8(v) => pv_fill(v, id, |x| x[0]),
+            PV::U64(v) => pv_fill(v, id, |x| u64::from_ne_bytes(x.try_into().unwrap())),
+            PV::A24(v) => pv_fill(v, id, |x| x.try_into().unwrap()),
+            PV::Big(v) => pv_fill(v, id, |x| x.try_into().unwrap()),
+            PV::Huge(v) => pv_fill(v, id, |x| x.try_into().unwrap()),
+            PV::U128(v) => pv_fill(v, id, |x| u128::from_ne_bytes(x.try_into().unwrap())),
+            PV::Buf(_) => None,
+        });
+        pending("");
+        ev(cx, format!("{} -> {}", fill, if bad.is_some() { "failed" } else { "ok, one more refused" }));
+        if let Some((class, d)) = bad {
+            cx.violate(class, "PooledVec.push", format!("PooledVec #{} ({}): {}", id, tn, d));
+        }
+        true
+    }
+}
+
+struct PooledVecSc {
+    /// element type u128, whose alignment (16) the 1 KiB global pool (alignment 8) does not promise.
+    /// Own scenario with a tiny budget: each run is executed in a forked copy first (a misaligned
+    /// vector aborts inside zipora under debug assertions), and a fork is slow in a worker that
+    /// has been running for a while.
+    over_aligned: bool,
+}
+
+impl Scenario for PooledVecSc {
+    fn name(&self) -> String {
+        format!("PooledVec/{}", if self.over_aligned { "element_alignment_16" } else { "global_pools" })
+    }
+    fn budget(&self, tier: Tier) -> u64 {
+        match (tier, self.over_aligned) {
+            (_, true) => 32,
+            (Tier::Quick, _) => 3_000,
+            (Tier::Thorough, _) => 100_000,
+        }
+    }
+    fn run(&self, cx: &mut Run) {
+        let over = self.over_aligned;
+        // as PooledBuffer/global_pools: the pools outlive a run
+        run_in(cx, false, true, over, move |cx| {
+            let cfg = cx.src.chan("cfg");
+            let sizes = choose(&cfg, &[1usize, 100, 1024, 1025, 65536, 65537], 3);
+            let mut kinds: Vec<usize> = choose(&cfg, &[0usize, 1, 2, 3, 1, 2], 2);
+            if cfg.chance(1, 6) {
+                kinds.push(4);
+            }
+            if over {
+                kinds.push(5);
+            }
+            ev(cx, format!("PooledVec and PooledBuffer over the global pools, buffer sizes={:?} element types={:?}", sizes, kinds.iter().map(|&k| PV_KINDS[k].0).collect::<Vec<_>>()));
+            let p = Params { sizes, aligns: vec![1], max_live: 4, w_alloc: 30, w_free: 40, min_ops: 3, max_ops: 16, full: false, drop_pool_first: false };
+            history(cx, TPooledMix { kinds }, &p);
         });
     }
 }
@@ -1347,23 +1973,33 @@ impl Scenario for PooledBufSc {
 use zipora::memory::tiered::{TieredAllocation, TieredConfig, TieredMemoryAllocator};
 
 struct TTiered {
-    a: TieredMemoryAllocator,
+    /// one or two allocators used from the same thread (they share the thread's MEDIUM_POOLS);
+    /// the `align` argument of `alloc` selects the allocator, a block goes back to its own
+    a: Vec<TieredMemoryAllocator>,
 }
 
 impl Target for TTiered {
-    type H = TieredAllocation;
+    type H = (usize, TieredAllocation);
     fn t(&self) -> &'static str {
         "TieredMemoryAllocator"
     }
-    fn alloc(&mut self, size: usize, _a: usize) -> Result<Got<TieredAllocation>, String> {
-        let a = self.a.allocate(size).map_err(|e| e.to_string())?;
+    fn alloc(&mut self, size: usize, which: usize) -> Result<Got<(usize, TieredAllocation)>, String> {
+        let which = which % self.a.len();
+        let a = self.a[which].allocate(size).map_err(|e| e.to_string())?;
         let addr = a.as_slice().as_ptr() as usize;
         let usable = a.as_slice().len();
         let heap = matches!(a, TieredAllocation::Small(..) | TieredAllocation::Medium(..));
-        Ok(Got { h: a, addr, usable, mem: Mem::Ptr { contain: heap }, align: 1 })
+        Ok(Got { h: (which, a), addr, usable, mem: Mem::Ptr { contain: heap }, align: 1 })
     }
-    fn free(&mut self, h: TieredAllocation, _s: usize) -> Result<(), String> {
-        self.a.deallocate(h).map_err(|e| e.to_string())
+    fn free(&mut self, h: (usize, TieredAllocation), _s: usize) -> Result<(), String> {
+        self.a[h.0].deallocate(h.1).map_err(|e| e.to_string())
+    }
+    fn alloc_name(&self, size: usize, which: usize) -> String {
+        if self.a.len() == 1 {
+            format!("allocate({})", size)
+        } else {
+            format!("allocator{}.allocate({})", which % self.a.len(), size)
+        }
     }
 }
 
@@ -1407,8 +2043,27 @@ impl Scenario for TieredSc {
                     return;
                 }
             };
-            let p = Params { sizes, aligns: vec![1], max_live: 6, w_alloc: 55, w_free: 45, min_ops: 4, max_ops: 30 };
-            history(cx, TTiered { a }, &p);
+            let mut allocators = vec![a];
+            // a second allocator on the same thread: it shares the thread-local medium pools with the first
+            if cfg.chance(1, 2) {
+                let second = if cfg.chance(1, 2) {
+                    ev(cx, "second allocator: TieredMemoryAllocator::default()");
+                    pc(|| TieredMemoryAllocator::default())
+                } else {
+                    let c2 = TieredConfig { enable_small_pools: cfg.chance(1, 2), enable_medium_pools: true, enable_mmap_large: !cfg.chance(1, 4), enable_hugepages: false, mmap_threshold: *cfg.pick(&[16 * 1024usize, 4096]), hugepage_threshold: 2 << 20 };
+                    ev(cx, format!("second allocator: TieredMemoryAllocator::new({:?})", c2));
+                    pc(|| TieredMemoryAllocator::new(c2))
+                };
+                match second {
+                    Ok(a2) => {
+                        allocators.push(a2);
+                        cx.probe("two_allocators_on_one_thread");
+                    }
+                    Err(e) => ev(cx, format!("second new -> error {}", e)),
+                }
+            }
+            let p = Params { sizes, aligns: (0..allocators.len()).collect(), max_live: 6, w_alloc: 55, w_free: 45, min_ops: 4, max_ops: 30, full: false, drop_pool_first: false };
+            history(cx, TTiered { a: allocators }, &p);
         });
     }
 }
@@ -1418,6 +2073,8 @@ use zipora::memory::mmap::{MemoryMappedAllocator, MmapAllocation};
 
 struct TMmap {
     a: MemoryMappedAllocator,
+    /// report `actual_size()` (documented: the allocated size, rounded to the page size) as usable
+    actual: bool,
 }
 
 impl Target for TMmap {
@@ -1428,7 +2085,7 @@ impl Target for TMmap {
     fn alloc(&mut self, size: usize, _a: usize) -> Result<Got<MmapAllocation>, String> {
         let a = self.a.allocate(size).map_err(|e| e.to_string())?;
         let addr = a.as_slice().as_ptr() as usize;
-        let usable = a.as_slice().len();
+        let usable = if self.actual { a.actual_size().max(a.as_slice().len()) } else { a.as_slice().len() };
         Ok(Got { h: a, addr, usable, mem: Mem::Ptr { contain: false }, align: 1 })
     }
     fn free(&mut self, h: MmapAllocation, _s: usize) -> Result<(), String> {
@@ -1460,15 +2117,80 @@ impl Scenario for MmapSc {
             let all = [0usize, 1, 4095, 4096, 4097, 8192, 16383, 16384, 16385, 20000, 70000];
             let sizes = choose(&cfg, &all, 3);
             ev(cx, format!("MemoryMappedAllocator::new({}) sizes={:?}", min, sizes));
-            let a = pc(|| MemoryMappedAllocator::new(min));
-            let p = Params { sizes, aligns: vec![1], max_live: 8, w_alloc: 50, w_free: 42, min_ops: 4, max_ops: 40 };
-            history(cx, TMmap { a }, &p);
+            let dflt = cfg.chance(1, 8);
+            let a = pc(|| if dflt { MemoryMappedAllocator::default() } else { MemoryMappedAllocator::new(min) });
+            let full = cfg.chance(1, 3);
+            if full || dflt {
+                ev(cx, format!("default()={} blocks used up to actual_size()={}", dflt, full));
+            }
+            let p = Params { sizes, aligns: vec![1], max_live: 8, w_alloc: 50, w_free: 42, min_ops: 4, max_ops: 40, full, drop_pool_first: false };
+            history(cx, TMmap { a, actual: full }, &p);
         });
     }
 }
 
 // ---- BumpAllocator
 use zipora::memory::bump::{BumpAllocator, BumpArena, BumpScope};
+
+#[repr(align(64))]
+struct A64([u8; 64]);
+#[repr(align(32))]
+struct A32x96([u8; 96]);
+
+/// (type name, size, alignment) of the element types used for typed bump allocations
+const TYPED: [(&str, usize, usize); 8] = [("u64", 8, 8), ("[u8; 3]", 3, 1), ("u16", 2, 2), ("[u32; 3]", 12, 4), ("u128", 16, 16), ("A64 (64 bytes, align 64)", 64, 64), ("A32x96 (96 bytes, align 32)", 96, 32), ("(u64, u8)", 16, 8)];
+
+enum TypedVia<'a> {
+    Alloc(&'a BumpAllocator),
+    Arena(&'a BumpArena),
+    Scope(&'a BumpScope<'a>),
+}
+
+/// `alloc::<T>()` for the k-th type of `TYPED`; returns the address
+fn typed_alloc(k: usize, via: TypedVia<'_>) -> Option<usize> {
+    fn one<T>(via: &TypedVia<'_>) -> Option<usize> {
+        match via {
+            TypedVia::Alloc(a) => a.alloc::<T>(),
+            TypedVia::Arena(a) => a.alloc::<T>(),
+            TypedVia::Scope(a) => a.alloc::<T>(),
+        }
+        .map(|p| p.as_ptr() as usize)
+        .ok()
+    }
+    match k {
+        0 => one::<u64>(&via),
+        1 => one::<[u8; 3]>(&via),
+        2 => one::<u16>(&via),
+        3 => one::<[u32; 3]>(&via),
+        4 => one::<u128>(&via),
+        5 => one::<A64>(&via),
+        6 => one::<A32x96>(&via),
+        _ => one::<(u64, u8)>(&via),
+    }
+}
+
+/// `alloc_slice::<T>(n)` for the k-th type of `TYPED`; returns (address, slice length reported)
+fn typed_slice(k: usize, n: usize, via: TypedVia<'_>) -> Option<(usize, usize)> {
+    fn one<T>(via: &TypedVia<'_>, n: usize) -> Option<(usize, usize)> {
+        match via {
+            TypedVia::Alloc(a) => a.alloc_slice::<T>(n),
+            TypedVia::Arena(a) => a.alloc_slice::<T>(n),
+            TypedVia::Scope(a) => a.alloc_slice::<T>(n),
+        }
+        .map(|p| (p.as_ptr() as *mut u8 as usize, p.len()))
+        .ok()
+    }
+    match k {
+        0 => one::<u64>(&via, n),
+        1 => one::<[u8; 3]>(&via, n),
+        2 => one::<u16>(&via, n),
+        3 => one::<[u32; 3]>(&via, n),
+        4 => one::<u128>(&via, n),
+        5 => one::<A64>(&via, n),
+        6 => one::<A32x96>(&via, n),
+        _ => one::<(u64, u8)>(&via, n),
+    }
+}
 
 struct TBump {
     a: BumpAllocator,
@@ -1518,13 +2240,49 @@ impl Target for TBump {
                 ev(cx, "reset()");
             }
             1 => {
-                pending("alloc::<u64>()");
-                let r = pc(|| self.a.alloc::<u64>());
+                // element types whose size and alignment differ, and over-aligned ones
+                let k = (o[2] % 8) as usize;
+                let (tn, size, align) = TYPED[k];
+                let name = format!("alloc::<{}>()", tn);
+                pending(&name);
+                let a = &self.a;
+                let r = pc(|| typed_alloc(k, TypedVia::Alloc(a)));
+                pending("");
                 match r {
-                    Ok(p) => {
-                        sh.admit(cx, (), p.as_ptr() as usize, 8, 8, Mem::Ptr { contain: true }, "alloc::<u64>()");
+                    Some(addr) => {
+                        if size > self.cap {
+                            ev(cx, format!("{} -> ok", name));
+                            cx.violate("accepted_beyond_capacity", "BumpAllocator.allocate", format!("{} succeeded with a capacity of {} bytes", name, self.cap));
+                        } else {
+                            if k != 0 {
+                                cx.probe("typed_alloc_size_differs_from_align");
+                            }
+                            sh.admit(cx, (), addr, size, align, Mem::Ptr { contain: true }, &name);
+                        }
                     }
-                    Err(_) => ev(cx, "alloc::<u64>() -> refused"),
+                    None => ev(cx, format!("{} -> refused", name)),
+                }
+            }
+            2 if o[3] % 2 == 0 => {
+                let k = (o[2] % 8) as usize;
+                let n = 1 + ((o[2] >> 8) % 3) as usize;
+                let (tn, size, align) = TYPED[k];
+                let name = format!("alloc_slice::<{}>({})", tn, n);
+                pending(&name);
+                let a = &self.a;
+                let r = pc(|| typed_slice(k, n, TypedVia::Alloc(a)));
+                pending("");
+                match r {
+                    Some((addr, len)) => {
+                        if size * n > self.cap || len != n {
+                            ev(cx, format!("{} -> ok, a slice of {} elements", name, len));
+                            cx.violate(if len != n { "too_small" } else { "accepted_beyond_capacity" }, "BumpAllocator.allocate", format!("{} returned a slice of {} elements with a capacity of {} bytes", name, len, self.cap));
+                        } else {
+                            cx.probe("typed_slice");
+                            sh.admit(cx, (), addr, size * n, align, Mem::Ptr { contain: true }, &name);
+                        }
+                    }
+                    None => ev(cx, format!("{} -> refused", name)),
                 }
             }
             _ => {
@@ -1580,7 +2338,7 @@ impl Scenario for BumpSc {
                     return;
                 }
             };
-            let p = Params { sizes, aligns, max_live: 24, w_alloc: 75, w_free: 0, min_ops: 4, max_ops: 30 };
+            let p = Params { sizes, aligns, max_live: 24, w_alloc: 75, w_free: 0, min_ops: 4, max_ops: 30, full: false, drop_pool_first: false };
             let huge_counts = cfg.chance(1, 8);
             history(cx, TBump { a, cap, huge_counts }, &p);
             // (non-trivial rule for an allocator without free: at least two blocks live)
@@ -1624,23 +2382,44 @@ impl Scenario for BumpScopeSc {
                     let size = sizes[(o[1] as usize) % sizes.len()];
                     let align = [1usize, 4, 8][(o[2] as usize) % 3];
                     let via = if scopes.is_empty() { 0 } else { (o[3] as usize) % (scopes.len() + 1) };
-                    let (r, name) = if via == 0 {
-                        (pc(|| arena.alloc_bytes(size, align)), format!("arena.alloc_bytes({}, align {})", size, align))
+                    // one in four allocations is typed: alloc::<T>() / alloc_slice::<T>(n) through the arena or a scope
+                    let typed = (o[3] >> 8) % 8;
+                    let (r, name, size, align) = if typed < 2 {
+                        let k = ((o[3] >> 16) % 8) as usize;
+                        let n = 1 + ((o[3] >> 24) % 3) as usize;
+                        let (tn, tsize, talign) = TYPED[k];
+                        let (who, tv) = if via == 0 { ("arena".to_string(), TypedVia::Arena(&arena)) } else { (format!("scope{}", scopes[via - 1].0), TypedVia::Scope(&scopes[via - 1].2)) };
+                        cx.probe("typed_alloc_through_arena_or_scope");
+                        if typed == 0 {
+                            (pc(|| typed_alloc(k, tv)), format!("{}.alloc::<{}>()", who, tn), tsize, talign)
+                        } else {
+                            let r = pc(|| typed_slice(k, n, tv));
+                            let name = format!("{}.alloc_slice::<{}>({})", who, tn, n);
+                            if let Some((_, len)) = r {
+                                if len != n {
+                                    cx.violate("too_small", "BumpArena.allocate", format!("{} returned a slice of {} elements", name, len));
+                                    break;
+                                }
+                            }
+                            (r.map(|x| x.0), name, tsize * n, talign)
+                        }
+                    } else if via == 0 {
+                        (pc(|| arena.alloc_bytes(size, align)).ok().map(|p| p.as_ptr() as usize), format!("arena.alloc_bytes({}, align {})", size, align), size, align)
                     } else {
                         let s = &scopes[via - 1];
-                        (pc(|| s.2.alloc_bytes(size, align)), format!("scope{}.alloc_bytes({}, align {})", s.0, size, align))
+                        (pc(|| s.2.alloc_bytes(size, align)).ok().map(|p| p.as_ptr() as usize), format!("scope{}.alloc_bytes({}, align {})", s.0, size, align), size, align)
                     };
                     match r {
-                        Ok(p) => {
+                        Some(addr) => {
                             if size > cap {
                                 cx.violate("accepted_beyond_capacity", "BumpArena.allocate", format!("{} succeeded with capacity {}", name, cap));
                                 break;
                             }
-                            if sh.admit(cx, (), p.as_ptr() as usize, size, align, Mem::Ptr { contain: true }, &name).is_none() {
+                            if sh.admit(cx, (), addr, size, align, Mem::Ptr { contain: true }, &name).is_none() {
                                 break;
                             }
                         }
-                        Err(_) => ev(cx, format!("{} -> refused", name)),
+                        None => ev(cx, format!("{} -> refused", name)),
                     }
                 } else if k < 75 && scopes.len() < 3 {
                     sh.clock += 1;
@@ -1692,7 +2471,7 @@ impl Scenario for BumpScopeSc {
 }
 
 // ---- the five-level family (offset-returning: memory is not reachable through the API)
-use zipora::memory::five_level_pool::{AdaptiveFiveLevelPool, ConcurrencyLevel, FiveLevelPoolConfig, FixedCapacityPool, LockFreePool, MemOffset, MutexBasedPool, NoLockingPool, ThreadLocalPool};
+use zipora::memory::five_level_pool::{AdaptiveFiveLevelPool, ConcurrencyLevel, FiveLevelPoolConfig, FiveLevelPoolHandle, FixedCapacityPool, LockFreePool, MemOffset, MutexBasedPool, NoLockingPool, ThreadLocalPool};
 
 #[derive(Clone, Copy, PartialEq)]
 enum Lv {
@@ -1721,6 +2500,10 @@ fn off_of(o: MemOffset) -> usize {
 
 struct TFive {
     name: &'static str,
+    /// a cloneable second handle to the same pool (AdaptiveFiveLevelPool::get_handle); `align` = 1 routes an
+    /// allocation through it, every other free goes through it
+    handle: Option<FiveLevelPoolHandle>,
+    nfree: u64,
     p: FlPool,
     align: usize,
     /// Some(capacity) when every offset lives in one region of that size
@@ -1733,7 +2516,11 @@ impl Target for TFive {
     fn t(&self) -> &'static str {
         self.name
     }
-    fn alloc(&mut self, size: usize, _a: usize) -> Result<Got<MemOffset>, String> {
+    fn alloc(&mut self, size: usize, via: usize) -> Result<Got<MemOffset>, String> {
+        if let (1, Some(h)) = (via, &self.handle) {
+            let o = h.alloc(size).map_err(|e| e.to_string())?;
+            return Ok(Got { h: o, addr: off_of(o), usable: size, mem: Mem::Off { bound: self.bound }, align: self.align });
+        }
         let r = match &mut self.p {
             FlPool::L1(p) => p.alloc(size),
             FlPool::L2(p) => p.alloc(size),
@@ -1746,6 +2533,10 @@ impl Target for TFive {
         Ok(Got { h: o, addr: off_of(o), usable: size, mem: Mem::Off { bound: self.bound }, align: self.align })
     }
     fn free(&mut self, h: MemOffset, size: usize) -> Result<(), String> {
+        self.nfree += 1;
+        if let (1, Some(hd)) = (self.nfree % 2, &self.handle) {
+            return hd.free(h, size).map_err(|e| e.to_string());
+        }
         let r = match &mut self.p {
             FlPool::L1(p) => p.free(h, size),
             FlPool::L2(p) => p.free(h, size),
@@ -1763,8 +2554,12 @@ impl Target for TFive {
             None
         }
     }
-    fn alloc_name(&self, size: usize, _a: usize) -> String {
-        format!("alloc({})", size)
+    fn alloc_name(&self, size: usize, via: usize) -> String {
+        if via == 1 && self.handle.is_some() {
+            format!("handle.alloc({})", size)
+        } else {
+            format!("alloc({})", size)
+        }
     }
 }
 
@@ -1913,8 +2708,17 @@ impl Scenario for FiveSc {
                     return;
                 }
             };
-            let t = TFive { name: tname, p, align: al, bound: if is_l4 { None } else { Some(capacity) }, limit: if is_l4 { capacity.max(arena) } else { capacity } };
-            let pr = Params { sizes, aligns: vec![1], max_live: 10, w_alloc: 58, w_free: 42, min_ops: 4, max_ops: 40 };
+            let handle = match &p {
+                FlPool::Ad(ad) if cfg.chance(1, 2) => pc(|| ad.get_handle()).ok(),
+                _ => None,
+            };
+            if handle.is_some() {
+                ev(cx, "get_handle(): a second handle to the same pool is used alongside");
+                cx.probe("second_handle");
+            }
+            let aligns = if handle.is_some() { vec![0, 1] } else { vec![0] };
+            let t = TFive { name: tname, handle, nfree: 0, p, align: al, bound: if is_l4 { None } else { Some(capacity) }, limit: if is_l4 { capacity.max(arena) } else { capacity } };
+            let pr = Params { sizes, aligns, max_live: 10, w_alloc: 58, w_free: 42, min_ops: 4, max_ops: 40, full: false, drop_pool_first: false };
             history(cx, t, &pr);
         });
     }
@@ -1974,7 +2778,7 @@ impl Scenario for NumaSc {
                 let _ = zipora::memory::clear_numa_pools();
             });
             ev(cx, format!("numa_alloc_aligned/numa_dealloc on node 0, sizes={:?} aligns={:?}", sizes, aligns));
-            let p = Params { sizes, aligns, max_live: 6, w_alloc: 50, w_free: 40, min_ops: 4, max_ops: 30 };
+            let p = Params { sizes, aligns, max_live: 6, w_alloc: 50, w_free: 40, min_ops: 4, max_ops: 30, full: false, drop_pool_first: false };
             history(cx, TNuma, &p);
             pc(|| {
                 let _ = zipora::memory::clear_numa_pools();
@@ -2001,14 +2805,17 @@ fn main() {
         "hugepages are not configured on this host: HugePageAllocator always refuses, so the Huge tier contributes refusals only".into(),
         "blocks larger than 4 KiB are pattern-filled at their first and last 512 bytes and every 253rd byte in between".into(),
         "LockFreeMemoryPool and SecureMemoryPool/chunk_size_not_multiple_of_8 histories are first executed in a forked copy of the worker process; a copy killed by a signal is reported as crash:<signal> with the events it streamed back".into(),
+        "clear()/clear_caches() in the middle of a history: MemoryPool and SecureMemoryPool at any time (SecureMemoryPool/clear_midway: with live blocks in a third of the runs); ThreadLocalMemoryPool/two_pools only while no block is live, ThreadLocalMemoryPool/clear_caches_with_live_blocks at any time".into(),
+        "with the per-run knob `full` a block is every byte the handle exposes through safe code (FixedCapacityAllocation::size(), MmapAllocation::actual_size()), otherwise the requested length".into(),
+        "PooledVec/element_alignment_16 (32 runs) executes each history first in a forked copy of the worker (an element type whose alignment the pool does not honour aborts inside zipora under debug assertions)".into(),
         "debug assertions and overflow checks are enabled in the build under test (framework profile): arithmetic overflow and misaligned-pointer dereference inside zipora surface as panic / SIGABRT".into(),
     ];
     spec.components = vec![
-        ("memory::lockfree_pool::LockFreeMemoryPool", "real"),
-        ("memory::secure_pool::SecureMemoryPool", "real"),
-        ("memory::threadlocal_pool::ThreadLocalMemoryPool", "real"),
+        ("memory::lockfree_pool::{LockFreeMemoryPool, LockFreeAllocation, LockFreePoolConfig presets}", "real"),
+        ("memory::secure_pool::SecureMemoryPool (allocate, allocate_with_hint, allocate_bulk_with_prefetch, clear, stats)", "real"),
+        ("memory::threadlocal_pool::ThreadLocalMemoryPool (one or two pools per thread, clear_caches)", "real"),
         ("memory::fixed_capacity_pool::FixedCapacityMemoryPool", "real"),
-        ("memory::pool::{MemoryPool, PooledBuffer}", "real"),
+        ("memory::pool::{MemoryPool (incl. clear), PooledBuffer, PooledVec}", "real"),
         ("memory::tiered::TieredMemoryAllocator", "real"),
         ("memory::mmap::MemoryMappedAllocator", "real (real mmap/munmap)"),
         ("memory::bump::{BumpAllocator, BumpArena, BumpScope}", "real"),
@@ -2018,15 +2825,21 @@ fn main() {
     ];
     spec.scenarios.push(Box::new(LockFreeSc { huge: false }));
     spec.scenarios.push(Box::new(LockFreeSc { huge: true }));
-    spec.scenarios.push(Box::new(SecureSc { aligned: false, odd: false }));
-    spec.scenarios.push(Box::new(SecureSc { aligned: true, odd: false }));
-    spec.scenarios.push(Box::new(SecureSc { aligned: false, odd: true }));
+    spec.scenarios.push(Box::new(SecureSc { aligned: false, odd: false, clear: false }));
+    spec.scenarios.push(Box::new(SecureSc { aligned: true, odd: false, clear: false }));
+    spec.scenarios.push(Box::new(SecureSc { aligned: false, odd: true, clear: false }));
+    spec.scenarios.push(Box::new(SecureSc { aligned: false, odd: false, clear: true }));
     spec.scenarios.push(Box::new(TlsSc { class_sizes: false }));
     spec.scenarios.push(Box::new(TlsSc { class_sizes: true }));
+    spec.scenarios.push(Box::new(Tls2Sc { with_live: false }));
+    spec.scenarios.push(Box::new(Tls2Sc { with_live: true }));
     spec.scenarios.push(Box::new(FixedSc { presets: false }));
     spec.scenarios.push(Box::new(FixedSc { presets: true }));
     spec.scenarios.push(Box::new(BasicSc));
     spec.scenarios.push(Box::new(PooledBufSc));
+    // (directly after PooledBufSc: all three share the recorded-region table of the global pools)
+    spec.scenarios.push(Box::new(PooledVecSc { over_aligned: false }));
+    spec.scenarios.push(Box::new(PooledVecSc { over_aligned: true }));
     spec.scenarios.push(Box::new(TieredSc));
     spec.scenarios.push(Box::new(MmapSc));
     spec.scenarios.push(Box::new(NumaSc));
